@@ -20,6 +20,21 @@ def run(ctx):
                               ctxname=rnd.choice([b"", b"ctx"]), ctxengine=rnd.choice([b"", b"", b"\x80\x00\x00\x01\x02otherengine"]),
                               secret=bytes(rnd.randrange(256) for _ in range(rnd.choice([4, 8, 16, 200]))),
                               boots=rnd.choice([1, 7, 300, 2 ** 31 - 1]), now=rnd.choice([3, 50000, 2 ** 31 - 200])))
+    # responses stamped behind what the client already knows about the engine's clock (inside the window)
+    for h in ("md5", "sha1"):
+        for lag in (1, 5, 149):
+            for op in ("get", "walk", "set", "bulkget"):
+                S.append(dict(level="authpriv", hash=h, privmethod=rnd.choice(["verifstream", "verifblock"]), authpw=b"authpw-lag", privpw=b"privpw-lag", op=op, pad=9, resp_lag=lag))
+    # the discovery Report's contextEngineID is not the engine id (empty, or a context behind a proxy): keys are localised to msgAuthoritativeEngineID
+    for h in ("md5", "sha1"):
+        for rc in (b"", b"\x80\x00\x00\x01\x02behindproxy"):
+            for op in ("get", "set", "walk"):
+                S.append(dict(level="authpriv", hash=h, privmethod=rnd.choice(["verifstream", "verifblock"]), authpw=b"authpw-rc", privpw=b"privpw-rc", op=op, pad=3, report_ctx=rc))
+    # an earlier request was answered with a (unauthenticated) usmStats Report: no later request may fall back to a lower level
+    for h in ("md5", "sha1"):
+        for rep in ("unsupportedSecLevels", "decryptionErrors", "wrongDigests", "unknownUserNames", "notInTimeWindows"):
+            for op in ("get", "set"):
+                S.append(dict(level="authpriv", hash=h, privmethod=rnd.choice(["verifstream", "verifblock"]), authpw=b"authpw-pr", privpw=b"privpw-pr", op=op, pad=3, prior_report=rep))
     # histories on one process: same privacy password under MD5 and then SHA-1 localisation (and the reverse), same engine
     for a, b in (("md5", "sha1"), ("sha1", "md5")):
         for op in ("get", "set"):
@@ -27,7 +42,7 @@ def run(ctx):
             S.append(dict(level="authpriv", hash=b, authpw=b"authpw-shared", privpw=b"shared-priv-password", op=op, pad=5))
     ctx.rule = ("authPriv exchanges through two recording plug-ins supplied via the puresnmp_plugins namespace (a keyed stream transform, and a block transform that pads to 8 octets so that decrypt returns trailing padding): privacy "
                 "pass-phrases x MD5/SHA-1 localisation x engine ids x operations x context names / foreign context engine ids x payload sizes x SET secrets; "
-                "the agent derives the privacy key independently; distinct = distinct request datagram")
+                "histories (an earlier request answered with a usmStats Report; the same pass-phrase under both localisations); discovery Reports whose contextEngineID is empty / foreign; responses stamped 1..149 s behind the client's notion of the engine time; the agent derives the privacy key independently; distinct = distinct request datagram")
     U.drive(ctx, S)
     ctx.assumptions = ["the privacy plug-in is the harness's stream transform; DES/AES plug-ins live in another package and are not exercised",
                        "`plaintext on the wire` = the SET value (>= 4 octets) or the scoped PDU body occurs verbatim in any datagram of the exchange"]
